@@ -287,6 +287,17 @@ func decodeProp(prop string) *Prop {
 			Run: func(c *Ctx) { zoneHistoryRun(c, prop) },
 		},
 		{
+			// CR3-shaped files that repeat themselves: what one box may cost, times the number of boxes
+			Name: "repeat", Phase: 1, Weight: 1,
+			N: func(tier string, seed uint64) uint64 {
+				if tier == "thorough" {
+					return 400000
+				}
+				return 20000
+			},
+			Run: func(c *Ctx) { decodeMixed(c, prop, 7) },
+		},
+		{
 			// ISOBMFF: the last child of a container cut short by its parent (0..24 bytes, every
 			// kind of size field) at offsets next to the multiples of the readers' buffer size
 			Name: "boxedge", Phase: 1, Weight: 1,
@@ -518,7 +529,32 @@ func decodeMixed(c *Ctx, prop string, class int) {
 	var e *harness.Entry
 	hi := 0
 	random := class == 1
-	if class == 6 {
+	if class == 7 {
+		// a CR3-shaped file that says the same thing many times (many CMT boxes full of long
+		// overlapping strings, many preview boxes that declare more than they hold)
+		var o gengen.RepeatOpts
+		switch gen.Intn(3) {
+		case 0:
+			o.CMT = 1 + gen.Intn(60)
+		case 1:
+			o.Prvw = 1 + gen.Intn(150)
+		default:
+			o.CMT, o.Prvw = 1+gen.Intn(30), 1+gen.Intn(60)
+		}
+		o.CMTType = gen.Intn(2)
+		o.Tags = []int{84, 84, 60, 20, 100, 128}[gen.Intn(6)]
+		o.Count = []uint32{4100, 4096, 4095, 1024, 300, 70000, 5000}[gen.Intn(7)]
+		o.Step = []int{1, 1, 2, 16, 0}[gen.Intn(5)]
+		o.Data = []int{4200, 4200, 1100, 400, 8300}[gen.Intn(5)]
+		o.Big = gen.Bool()
+		o.PrvwIn = gen.Bool()
+		o.PrvwSize = []uint32{131072, 131072, 65536, 131073, 4096, 1 << 20}[gen.Intn(6)]
+		o.PrvwData = gen.Intn(40)
+		data = gengen.RepeatCR3(o)
+		name = fmt.Sprintf("repeatcr3(%+v)", o)
+		e = harness.EntryByName([]string{"Decode", "DecodeCR3", "PreviewCR3", "isobmff.Reader"}[gen.Intn(4)])
+		hi = len(data)
+	} else if class == 6 {
 		// a container's last child cut short by its parent, placed next to a multiple of the
 		// pooled readers' 4 KiB buffer (where its header is split between two fills) or anywhere
 		var o gengen.EdgeOpts
